@@ -372,6 +372,9 @@ for (_k, _tiers, _cost, _to) in ((3, ("quick",), 3, 1800), (4, ("thorough",), 30
                          "(truncated DIRECT pushes: c02_truncated_direct_push)", cost=_cost, tiers=_tiers, timeout=_to,
                          stubs=("E2: content-aware std::io::Cursor over a byte string of known length (read_u8/u16/u32, partial read, position)",)))
 
+OBLIGATIONS.append(M("C07", "c07_pubkey_derivation", {"q": "pubkey_derivation"}, ["PrivateKey::get_point", "PublicKey::from_private_key_impl"],
+                     "symbolic secret scalar and compression flag; scalar multiplication (public point of the secret) and the SEC1 encoder are uninterpreted: decided is that the bytes returned are the encoding of THIS key's "
+                     "public point in the form the key's flag states (compressed iff is_pub_key_compressed) and that from_private_key_impl stores those bytes with that flag", cost=1))
 _REC_FUNCS = ["Signature::get_public_key", "Signature::get_public_key_from_digest", "get_hash_digest", "PublicKey::from_bytes_impl", "PublicKey::from_encoded_point"]
 _REC_BOUNDS = ("both hash choices x recovery info present / absent (message of symbolic length); caller digests of 32, 31, 33 and 0 bytes; signature value, the three recovery booleans and the recovered point symbolic. "
                "The recovery primitive (recover_verify_key_from_digest[_bytes]) and the SEC1 encoder are uninterpreted: decided is which signature, recovery id and digest reach the primitive and that the returned key is the "
